@@ -86,6 +86,8 @@ def generate(rng, i, tier):
         "blanks": blanks,
         "scans": scans,
         "prints": [rng.random() < 0.4 for _ in range(k)],
+        # files-mode: the result files a member is expected to leave (an aborted member may well lack them)
+        "files_modes": [(rng.choice(["all", "data", "data, unmatched", "printouts", "unmatched", "data, printouts, unmatched"]) if rng.random() < 0.2 else None) for _ in range(k)],
         "method": method,
         "kind": kind,
         "policy": policy,
@@ -108,6 +110,8 @@ def reductions(sc):
             c = with_(sc)
             del c["scans"][j]
             del c["prints"][j]
+            if c.get("files_modes"):
+                del c["files_modes"][j]
             if c["vmode_member"] is not None and c["vmode_member"] > j:
                 c["vmode_member"] -= 1
             if c.get("only"):
@@ -119,6 +123,8 @@ def reductions(sc):
         yield with_(sc, blanks=[])
     if any(sc["prints"]):
         yield with_(sc, prints=[False] * k)
+    if any(sc.get("files_modes") or []):
+        yield with_(sc, files_modes=[None] * k)
     if sc["method"] != "collect_paths":
         yield with_(sc, method="collect_paths")
     for j, s in enumerate(sc["scans"]):
@@ -174,6 +180,9 @@ def member_text(sc, j):
     head = f"id:m{j}"
     if sc["kind"] == "vmode_raise" and sc["vmode_member"] == j:
         head += " validation-mode:raise"
+    fm = (sc.get("files_modes") or [None] * (j + 1))[j] if j < len(sc.get("files_modes") or []) else None
+    if fm:
+        head += f" files-mode:{fm}"
     prov = {
         "arg_type": f"@s = add(#n{j}, 1)",
         "limit_raise": f'collect("id", "n{j}")',
